@@ -10,6 +10,7 @@
 #include <etl/_numeric/lcm.hpp>
 #include <etl/_ratio/ratio.hpp>
 #include <etl/_ratio/ratio_divide.hpp>
+#include <etl/_type_traits/bool_constant.hpp>
 #include <etl/_type_traits/common_type.hpp>
 #include <etl/_type_traits/is_convertible.hpp>
 
@@ -206,6 +207,17 @@ private:
     rep _rep{};
 };
 
+namespace detail {
+template <typename T>
+struct is_duration : etl::false_type { };
+
+template <typename Rep, typename Period>
+struct is_duration<etl::chrono::duration<Rep, Period>> : etl::true_type { };
+
+template <typename T>
+inline constexpr auto is_duration_v = is_duration<T>::value;
+} // namespace detail
+
 } // namespace etl::chrono
 
 namespace etl {
@@ -295,6 +307,48 @@ template <typename Rep1, typename Period1, typename Rep2, typename Period2>
     using CD = common_type_t<duration<Rep1, Period1>, duration<Rep2, Period2>>;
     using CR = typename CD::rep;
     return CD(static_cast<CR>(CD(lhs).count() % CD(rhs).count()));
+}
+
+/// Multiplies the duration by a tick count value. The computation is done in
+/// common_type_t<Rep1, Rep2>, which is also the result's representation.
+///
+/// https://en.cppreference.com/w/cpp/chrono/duration/operator_arith4
+template <typename Rep1, typename Period, typename Rep2>
+    requires(not detail::is_duration_v<Rep2> and is_convertible_v<Rep2 const&, common_type_t<Rep1, Rep2>>)
+[[nodiscard]] constexpr auto operator*(duration<Rep1, Period> const& d, Rep2 const& s)
+    -> duration<common_type_t<Rep1, Rep2>, Period>
+{
+    using CD = duration<common_type_t<Rep1, Rep2>, Period>;
+    return CD(CD(d).count() * s);
+}
+
+/// Multiplies the duration by a tick count value.
+template <typename Rep1, typename Rep2, typename Period>
+    requires(not detail::is_duration_v<Rep1> and is_convertible_v<Rep1 const&, common_type_t<Rep1, Rep2>>)
+[[nodiscard]] constexpr auto operator*(Rep1 const& s, duration<Rep2, Period> const& d)
+    -> duration<common_type_t<Rep1, Rep2>, Period>
+{
+    return d * s;
+}
+
+/// Divides the duration by a tick count value.
+template <typename Rep1, typename Period, typename Rep2>
+    requires(not detail::is_duration_v<Rep2> and is_convertible_v<Rep2 const&, common_type_t<Rep1, Rep2>>)
+[[nodiscard]] constexpr auto operator/(duration<Rep1, Period> const& d, Rep2 const& s)
+    -> duration<common_type_t<Rep1, Rep2>, Period>
+{
+    using CD = duration<common_type_t<Rep1, Rep2>, Period>;
+    return CD(CD(d).count() / s);
+}
+
+/// Computes the remainder of the tick count divided by a tick count value.
+template <typename Rep1, typename Period, typename Rep2>
+    requires(not detail::is_duration_v<Rep2> and is_convertible_v<Rep2 const&, common_type_t<Rep1, Rep2>>)
+[[nodiscard]] constexpr auto operator%(duration<Rep1, Period> const& d, Rep2 const& s)
+    -> duration<common_type_t<Rep1, Rep2>, Period>
+{
+    using CD = duration<common_type_t<Rep1, Rep2>, Period>;
+    return CD(CD(d).count() % s);
 }
 
 /// Compares two durations. Checks if lhs and rhs are equal, i.e. the
